@@ -18,6 +18,11 @@ From PegtlV.gen Require Import Uri_gen.
 Import ListNotations.
 Local Open Scope N_scope.
 
+(* vm_compute is call-by-value: andb / orb evaluate both arguments.  The certificate uses the lazy forms (convertible
+   with andb / orb) wherever one side can be expensive and irrelevant. *)
+Notation "a &&& b" := (if a then b else false) (at level 40, left associativity).
+Notation "a ||| b" := (if a then true else b) (at level 50, left associativity).
+
 (* ---------- emptiness (sufficient syntactic test) ---------- *)
 Fixpoint re_empty (r : re) : bool :=
   match r with
@@ -89,6 +94,25 @@ Definition quot2 (fuel : nat) (R L K : re) : bool :=
       reps_ok atoms reps && atoms_in atoms a && atoms_in atoms l && seen tbl (a, l) && lqcheck reps Ks tbl && incl_many fuel Ks K
   | None => false
   end.
+
+(* ---------- first-byte abstraction of a continuation K:  fabs K = (first bytes of K).Any [+ Eps]  contains K,
+     cofabs K is disjoint from it (both facts are CHECKED by fabs_ok, the construction is not trusted) ---------- *)
+Fixpoint mk_ranges (bs : list N) (f : N -> bool) (cur : option (N * N)) (acc : cset) : cset :=
+  match bs with
+  | [] => match cur with Some p => p :: acc | None => acc end
+  | b :: bs' => if f b then mk_ranges bs' f (match cur with Some (lo, _) => Some (lo, b) | None => Some (b, b) end) acc
+                else mk_ranges bs' f None (match cur with Some p => p :: acc | None => acc end)
+  end.
+Definition first_cs (k : re) : cset := mk_ranges all_bytes (fun b => negb (is_empty (deriv b k))) None [].
+Definition rest_cs (k : re) : cset := mk_ranges all_bytes (fun b => is_empty (deriv b k)) None [].
+Definition opt_eps (b : bool) : re := if b then Eps else Empty.
+Definition fabs (K : re) : re := let k := norm K in Alt (Cat (Chr (first_cs k)) Any) (opt_eps (nullable k)).
+Definition cofabs (K : re) : re := let k := norm K in Alt (Cat (Chr (rest_cs k)) Any) (opt_eps (negb (nullable k))).
+Definition fabs_ok (K : re) : bool :=
+  let k := norm K in
+  let cs := first_cs k in
+  let cs' := rest_cs k in
+  forallb (fun b => (is_empty (deriv b k) || cs_mem b cs) && negb (cs_mem b cs && cs_mem b cs')) all_bytes.
 
 (* ---------- what cannot follow a successful match, as a language ---------- *)
 Definition Kx2 (o : option re) (K : re) : re := match o with Some X => Alt K X | None => K end.
@@ -241,7 +265,7 @@ Fixpoint cc2_seq (sub : rid -> re -> bool) (subre : rid -> option (re * bool)) (
   match rs with
   | [] => true
   | r :: rs' => match subs_re subre rs' with
-                | Some l => sub r (Cat (fr (map fst l)) K) && cc2_seq sub subre rs' K
+                | Some l => sub r (Cat (fr (map fst l)) K) &&& cc2_seq sub subre rs' K
                 | None => false
                 end
   end.
@@ -251,7 +275,7 @@ Fixpoint cc2_sor (sub subnr : rid -> re -> bool) (subre : rid -> option (re * bo
   | r :: rs' => match subre r, subs_re subre rs' with
                 | Some (R, _), Some l =>
                     let L := Cat (fa (map fst l)) K in
-                    sub r K && subnr r L && quot2 CF R L (Kx2 (fol r K) K) && cc2_sor sub subnr subre fol rs' K
+                    sub r K &&& subnr r L &&& quot2 CF R L (Kx2 (fol r K) K) &&& cc2_sor sub subnr subre fol rs' K
                 | _, _ => false
                 end
   end.
@@ -259,17 +283,34 @@ Fixpoint nr_seq (subnr : rid -> re -> bool) (pur : rid -> bool) (subre : rid -> 
   match rs with
   | [] => true
   | r :: rs' =>
-      subnr r L &&
-      (forallb pur rs' ||
+      subnr r L &&&
+      (forallb pur rs' |||
        match subre r with
        | Some (R, _) => match lq CF R L with Some Q => nr_seq subnr pur subre rs' Q | None => false end
        | None => false
        end)
   end.
 
+(* a node of the fragment of UriComplete.v: certified by ccf, for composite nodes preferably w.r.t. the first-byte
+   abstraction of K (every check below the node then runs on a small continuation), completed by ONE quotient check
+   with the real K: whatever prefix in R the engine consumed, if the rest starts like K it is in K *)
+Definition cc2_old (n' : nat) (r : rid) (K : re) : bool :=
+  match nth_error G r with
+  | Some nd =>
+      match MX r, atom_re (nhead nd) with
+      | None, None =>
+          match re_of G MX (S n') r with
+          | Some (R, _) => (fabs_ok K &&& ccf (S n') r (fabs K) &&& quot2 CF R (Cat R K) (Alt K (cofabs K))) ||| ccf (S n') r K
+          | None => false
+          end
+      | _, _ => ccf (S n') r K
+      end
+  | None => false
+  end.
+
 (* one level of the two checks, over the checks of the level below (subc, subn) *)
 Definition cc2_step (subc subn : rid -> re -> bool) (n' : nat) (r : rid) (K : re) : bool :=
-    (old_frag (S n') r && is_none (nfol2 (S n') r K) && ccf (S n') r K) ||
+    (old_frag (S n') r &&& is_none (nfol2 (S n') r K) &&& cc2_old n' r K) |||
     match nth_error G r with
     | None => false
     | Some nd =>
@@ -281,32 +322,32 @@ Definition cc2_step (subc subn : rid -> re -> bool) (n' : nat) (r : rid) (K : re
         | HSor, rs => cc2_sor subc subn (re_of G MX n') (nfol2 n') rs K
         | HPartial, [r1] =>
             match re_of G MX n' r1 with
-            | Some (R, _) => subc r1 K && subn r1 K && quot2 CF R K (Kx2 (nfol2 n' r1 K) K)
+            | Some (R, _) => subc r1 K &&& subn r1 K &&& quot2 CF R K (Kx2 (nfol2 n' r1 K) K)
             | None => false
             end
         | HStarPartial, [r1] =>
             match re_of G MX n' r1 with
             | Some (R, _) => let L := Cat (Star R) K in
-                             negb (nullable R) && subc r1 L && subn r1 L && quot2 CF R L (Kx2 (nfol2 n' r1 L) L)
+                             negb (nullable R) &&& subc r1 L &&& subn r1 L &&& quot2 CF R L (Kx2 (nfol2 n' r1 L) L)
             | None => false
             end
         | HPlus, [r1] =>
             match re_of G MX n' r1 with
             | Some (R, _) => let L := Cat (Star R) K in
-                             negb (nullable R) && subc r1 L && subn r1 L && quot2 CF R L (Kx2 (nfol2 n' r1 L) L)
+                             negb (nullable R) &&& subc r1 L &&& subn r1 L &&& quot2 CF R L (Kx2 (nfol2 n' r1 L) L)
             | None => false
             end
         | HIfMust dflt, [cnd; m] =>
             match re_of G MX n' cnd, re_of G MX n' m with
             | Some (Rc, _), Some (Rm, true) =>
-                subc cnd (Cat Rm K) && subc m K &&
-                (if dflt then subn cnd K && quot2 CF Rc K (Kx2 (nfol2 n' cnd (Cat Rm K)) (Cat Rm K)) else true)
+                subc cnd (Cat Rm K) &&& subc m K &&&
+                (if dflt then subn cnd K &&& quot2 CF Rc K (Kx2 (nfol2 n' cnd (Cat Rm K)) (Cat Rm K)) else true)
             | _, _ => false
             end
         | HMust, [r1] => subc r1 K
         | HNotAt, [r1] =>
             match re_of G MX n' r1 with
-            | Some (R1, _) => subc r1 Any && subn r1 K && quot2 CF R1 K Empty
+            | Some (R1, _) => subc r1 Any &&& subn r1 K &&& quot2 CF R1 K Empty
             | None => false
             end
         | _, _ => false
@@ -315,7 +356,7 @@ Definition cc2_step (subc subn : rid -> re -> bool) (n' : nat) (r : rid) (K : re
     end.
 
 Definition nr_step (subc subn : rid -> re -> bool) (n' : nat) (r : rid) (L : re) : bool :=
-    re_empty L || pure (S n') r ||
+    re_empty L ||| pure (S n') r |||
     match nth_error G r with
     | None => false
     | Some nd =>
@@ -330,23 +371,23 @@ Definition nr_step (subc subn : rid -> re -> bool) (n' : nat) (r : rid) (L : re)
         | HNotAt, [r1] => subn r1 L
         | HStarPartial, [r1] =>
             match re_of G MX n' r1 with
-            | Some (R, _) => negb (nullable R) && match lq CF (Star R) L with Some X => subn r1 X | None => false end
+            | Some (R, _) => negb (nullable R) &&& match lq CF (Star R) L with Some X => subn r1 X | None => false end
             | None => false
             end
         | HPlus, [r1] =>
             match re_of G MX n' r1 with
-            | Some (R, _) => negb (nullable R) && match lq CF (Star R) L with Some X => subn r1 X | None => false end
+            | Some (R, _) => negb (nullable R) &&& match lq CF (Star R) L with Some X => subn r1 X | None => false end
             | None => false
             end
         | HIfMust _, [cnd; m] =>
             match re_of G MX n' cnd with
-            | Some (Rc, _) => subn cnd L && match lq CF Rc L with Some Q => subn m Q | None => false end
+            | Some (Rc, _) => subn cnd L &&& match lq CF Rc L with Some Q => subn m Q | None => false end
             | None => false
             end
         | HMust, [r1] =>
             match re_of G MX n' r1 with
             | Some (R1, _) => match lq CF R1 L with
-                              | Some Q => incl_auto CF L (Cat R1 Q) && subc r1 Q
+                              | Some Q => incl_auto CF L (Cat R1 Q) &&& subc r1 Q
                               | None => false end
             | None => false
             end
